@@ -57,7 +57,12 @@ func populate(r *hx.Rng, fsys filesystem.FileSystem, symlinks bool) error {
 	}
 	sort.Strings(names)
 	for _, n := range names {
-		if err := put(fsys, n, r.Bytes(files[n])); err != nil {
+		data := r.Bytes(files[n])
+		// second half compressible, so that compressing formats store a mix of raw and compressed blocks
+		for i := len(data) / 2; i < len(data); i++ {
+			data[i] = byte('a' + (i/97)%5)
+		}
+		if err := put(fsys, n, data); err != nil {
 			return fmt.Errorf("%s: %w", n, err)
 		}
 	}
@@ -148,8 +153,9 @@ func buildBases(c *hx.Ctx) ([]baseImage, error) {
 		if err := populate(r.Fork(), fsys, false); err != nil {
 			return nil, fmt.Errorf("squashfs populate: %w", err)
 		}
-		o := squashfs.FinalizeOptions{}
+		o := squashfs.FinalizeOptions{Compression: &squashfs.CompressorGzip{CompressionLevel: 6}}
 		if opt == "nocomp" {
+			o = squashfs.FinalizeOptions{}
 			o.NoCompressData, o.NoCompressFragments, o.NoCompressInodes = true, true, true
 		}
 		if err := fsys.Finalize(o); err != nil {
